@@ -702,6 +702,14 @@ func (w *World) monLogout(rec *CheckRec) {
 		}
 		if rec.Location != want {
 			w.violate("C09", "logout-redirects-elsewhere", fmt.Sprintf("check #%d Location %q want %q", rec.N, rec.Location, want))
+			for _, o := range w.Filters {
+				if o.Idx == f.Idx || o.Spec.Logout == nil {
+					continue
+				}
+				if ow := o.Spec.Logout.RedirectURI; rec.Location == ow && ow != "" || o.Spec.Discovery && rec.Location == o.IdP.EndSessionURL() {
+					w.violate("C18", "logout-redirects-to-another-filters-end-session-uri", fmt.Sprintf("check #%d: filter %s answered its logout with the end-session URI of filter %s: %q (its own: %q)", rec.N, f.Spec.Chain, o.Spec.Chain, rec.Location, want))
+				}
+			}
 		}
 		w.checkSessionCookieProp(rec, f, "C09")
 		if removeFailed {
@@ -991,15 +999,29 @@ func (w *World) keyKnowledge(f *FilterRT, signer *SignKey) string {
 		}
 		return "unknown-key"
 	}
+	// The fetched key set is refreshed every periodic_fetch_interval_sec (1200 s when not configured), whatever
+	// caching headers the key endpoint sends. Once two such intervals and two minutes have passed since the latest
+	// key change - in a run without injected faults - the set every replica holds is the published one.
+	settled := false
+	if f.IdP.Rotations > 0 && len(w.faults) == 0 {
+		iv := 1200
+		if f.Spec.JWKSFetch && f.Spec.JWKSInterval > 0 {
+			iv = f.Spec.JWKSInterval
+		}
+		settled = time.Since(f.IdP.LastRotation) > time.Duration(2*iv+120)*time.Second
+	}
 	for _, k := range f.IdP.Published {
 		if k == signer {
-			if f.IdP.Rotations > 0 {
+			if f.IdP.Rotations > 0 && !settled {
 				return "maybe"
+			}
+			if settled {
+				w.probe("key-set-settled-after-rotation:published-key")
 			}
 			return "known"
 		}
 	}
-	if f.IdP.Rotations > 0 {
+	if f.IdP.Rotations > 0 && !settled {
 		return "maybe" // an older cached key set may still contain it
 	}
 	return "unknown-key"
